@@ -209,7 +209,12 @@ package parser
 //@   assert[C04] at call parser.(*lexer).mark#9: a-literal-is-closed-before-the-mark-moves: l.b == ""
 //@   assert[C04] at call parser.(*lexer).mark#8: a-literal-is-closed-before-the-mark-moves: l.b == ""
 //@   ensures[C03 C10] a-scanner-that-gives-up-has-recorded-why: !result ==> l.err != nil
+// Inside single quotes every character up to the closing quote is kept as
+// it was read (a backslash or a newline included).
 //@ func (*lexer).scanQuote
+//@   site SQ = call parser.(*lexer).read#2
+//@   loop "#1" step[C15] a-character-inside-single-quotes-is-stored: site(SQ) && len(l.b) > at(SQ, len(l.b))
+//@   assert[C15] at call strings.(*Builder).WriteRune#1: a-character-inside-single-quotes-is-copied-as-read: arg1 == siteret(SQ)
 //@   assert[C04] at call parser.(*lexer).mark#2: a-literal-is-closed-before-the-mark-moves: l.b == ""
 //@   assert[C04] at call parser.(*lexer).mark#3: a-literal-is-closed-before-the-mark-moves: l.b == ""
 //@   ensures[C03 C10] a-scanner-that-gives-up-has-recorded-why: !result ==> l.err != nil
